@@ -322,7 +322,73 @@ def c09_5(ctx):
         if key:
             out += rl.accept_set(ctx, "%s:PrivateKey.parse" % label, [key], ISet.of([0x80, 0xEF]), targets="returns", init={key: ISet.range(0, 255)}, prefer=(0,), repo=repo,
                                  what="WIF version byte")
+        out += _wif_compressed_flag(ctx, repo, label, mod, fn)
     return out
+
+
+def _wif_compressed_flag(ctx, repo, label, mod, fn):
+    """The compression flag of a parsed WIF is decided by the payload length (34 bytes: version ‖ secret ‖ 01, 33 bytes:
+    version ‖ secret), not by the last byte: an uncompressed key whose secret ends in 01 must stay uncompressed."""
+    spec = "%s:PrivateKey.parse" % label
+    cfg = cfg_of(fn)
+    ff = Folder(repo, mod.name)
+    flag = None
+    for n in cfg.returns():
+        v = n.ast.value if n.ast is not None else None
+        if isinstance(v, ast.Call):
+            for k in v.keywords:
+                if k.arg == "compressed" and isinstance(k.value, ast.Name):
+                    flag = k.value.id
+    if flag is None:
+        return [ctx.err(spec, "the `compressed=` argument of the constructed key is not a local", fn, mod)]
+    ltests = []
+    for n in cfg.tests():
+        t = n.ast
+        if isinstance(t, ast.Compare) and len(t.ops) == 1:
+            l, r = t.left, t.comparators[0]
+            for a, b in ((l, r), (r, l)):
+                if isinstance(a, ast.Call) and call_name(a) == "len" and (isinstance(ff.fold(b), (int, tuple, list))):
+                    ltests.append((n, a is l, ff.fold(b)))
+    if not ltests:
+        pass
+    res = {}
+    nonconst = []
+    for L in (33, 34):
+        removed = set()
+        for n, len_left, c in ltests:
+            t = n.ast
+            op = type(t.ops[0])
+            x, y = (L, c) if len_left else (c, L)
+            try:
+                truth = {ast.Eq: lambda: x == y, ast.NotEq: lambda: x != y, ast.Lt: lambda: x < y, ast.LtE: lambda: x <= y, ast.Gt: lambda: x > y, ast.GtE: lambda: x >= y,
+                         ast.In: lambda: x in y, ast.NotIn: lambda: x not in y}[op]()
+            except (KeyError, TypeError):
+                continue
+            removed.add((n.id, not truth))
+        live = cfg.reach([cfg.entry], removed=frozenset(removed))
+        if not any(x.id in live for x in cfg.returns()):
+            res[L] = "rejected"
+            continue
+        vals = set()
+        for x in cfg.nodes:
+            if x.id in live and x.kind == "stmt" and isinstance(x.ast, ast.Assign) and any(isinstance(tg, ast.Name) and tg.id == flag for tg in x.ast.targets):
+                c = ff.fold(x.ast.value)
+                if isinstance(c, bool):
+                    vals.add(c)
+                else:
+                    nonconst.append(x)
+        res[L] = vals
+    if nonconst:
+        a = nonconst[0].ast
+        txt = ast.unparse(a.value)
+        if "endswith" in txt or "[-1]" in txt:
+            return [ctx.bad(spec, "the compression flag is taken from the payload's last byte (`%s`) instead of its length: an uncompressed key whose secret ends in 01 "
+                                  "is parsed as a compressed key with the secret shifted right by one byte" % ast.unparse(a), a, mod, key="wif-compressed")]
+        return [ctx.err(spec, "compression flag `%s` not understood" % ast.unparse(a), a, mod)]
+    if res.get(33) == {False} and res.get(34) == {True}:
+        return [ctx.ok(spec, "33-byte payload → uncompressed, 34-byte payload → compressed", fn, mod, key="wif-compressed")]
+    return [ctx.bad(spec, "compression flag by payload length: %s; expected {33: uncompressed, 34: compressed}" % {k: (sorted(v) if isinstance(v, set) else v) for k, v in res.items()},
+                    fn, mod, key="wif-compressed")]
 
 
 def c09_6(ctx):
